@@ -45,10 +45,68 @@ type ideal struct {
 	c int
 }
 
-func (e *ideal) insert(g []string) {
-	e.t = append(e.t[:e.c:e.c], append(append([]string{}, g...), e.t[e.c:]...)...)
-	e.c += len(g)
+func (e *ideal) insert(g []string) { e.insertRaw(strings.Join(g, "")) }
+// segment splits a string into the clusters of the test alphabet: a combining
+// mark, a variation selector or a joiner attaches to what precedes it, and
+// what follows a joiner attaches too.
+func segment(s string) []string {
+	var out []string
+	prevZWJ := false
+	for _, r := range s {
+		attach := r == 0x0301 || r == 0xFE0F || r == 0x200D || prevZWJ || (r >= 0x1F1E6 && r <= 0x1F1FF && len(out) > 0 && regionalOpen(out[len(out)-1]))
+		if attach && len(out) > 0 {
+			out[len(out)-1] += string(r)
+		} else {
+			out = append(out, string(r))
+		}
+		prevZWJ = r == 0x200D
+	}
+	return out
 }
+
+func regionalOpen(g string) bool {
+	r := []rune(g)
+	return len(r) == 1 && r[0] >= 0x1F1E6 && r[0] <= 0x1F1FF
+}
+
+// insertRaw inserts text which may merge with the cluster before the cursor
+// (a combining mark typed after its base): the cursor ends up behind the
+// cluster that holds the last inserted byte.
+func (e *ideal) insertRaw(ins string) {
+	before := strings.Join(e.t[:e.c], "")
+	after := strings.Join(e.t[e.c:], "")
+	off := len(before) + len(ins)
+	n0 := len(e.t)
+	e.t = segment(before + ins + after)
+	if len(e.t) < n0+len(segment(ins)) {
+		harness.R.Label("histories", "inserted text merged with a neighbouring cluster")
+	}
+	e.c = len(e.t)
+	pos := 0
+	for i, g := range e.t {
+		pos += len(g)
+		if pos >= off {
+			e.c = i + 1
+			break
+		}
+	}
+}
+
+// gw is the width of a cluster: that of its base.
+func gw(g string) int {
+	if w, ok := gWidth[g]; ok {
+		return w
+	}
+	base := strings.TrimRight(g, "\u0301")
+	if w, ok := gWidth[base]; ok {
+		return w
+	}
+	if base == "" {
+		return 0
+	}
+	return 1
+}
+
 func (e *ideal) clamp() {
 	if e.c < 0 {
 		e.c = 0
@@ -61,14 +119,14 @@ func (e *ideal) value() string { return strings.Join(e.t, "") }
 func (e *ideal) widthBefore() int {
 	w := 0
 	for _, g := range e.t[:e.c] {
-		w += gWidth[g]
+		w += gw(g)
 	}
 	return w
 }
 func (e *ideal) total() int {
 	w := 0
 	for _, g := range e.t {
-		w += gWidth[g]
+		w += gw(g)
 	}
 	return w
 }
@@ -154,6 +212,10 @@ func runTextField(c Case) string {
 		case "type":
 			ev = textKey(strings.Join(op.G, ""))
 			e.insert(op.G)
+			edit = true
+		case "type-mark":
+			ev = vaxis.Key{Keycode: 0x0301, Text: "\u0301"}
+			e.insertRaw("\u0301")
 			edit = true
 		case "home":
 			ev = key(vaxis.KeyHome, 0)
@@ -315,8 +377,12 @@ func runTextInput(c Case) string {
 		case "type":
 			for _, g := range op.G {
 				evs = append(evs, textKey(g))
+				// one key at a time: each can merge with its neighbours
+				e.insertRaw(g)
 			}
-			e.insert(op.G)
+		case "type-mark":
+			evs = append(evs, vaxis.Key{Keycode: 0x0301, Text: "\u0301"})
+			e.insertRaw("\u0301")
 		case "type-shift":
 			evs = append(evs, vaxis.Key{Keycode: 'z', ShiftedCode: 'Z', Modifiers: vaxis.ModShift, Text: "Z"})
 			e.insert([]string{"Z"})
@@ -470,9 +536,9 @@ func run(c Case) string {
 
 // ---------------------------------------------------------------------------
 
-var fieldOps = []string{"type", "type", "type", "home", "ctrl-a", "end", "ctrl-e", "right", "left", "left", "delete", "backspace", "backspace", "ctrl-k", "enter", "release",
+var fieldOps = []string{"type", "type", "type", "type-mark", "home", "ctrl-a", "end", "ctrl-e", "right", "left", "left", "delete", "backspace", "backspace", "ctrl-k", "enter", "release",
 	"api-insert", "api-cursor", "api-del-right", "api-del-left", "api-del-eol", "api-reset"}
-var inputOps = []string{"type", "type", "type", "type-shift", "paste", "paste", "home", "ctrl-a", "end", "ctrl-e", "right", "left", "left", "delete", "backspace", "backspace", "ctrl-k", "ctrl-u",
+var inputOps = []string{"type", "type", "type", "type-mark", "type-shift", "paste", "paste", "home", "ctrl-a", "end", "ctrl-e", "right", "left", "left", "delete", "backspace", "backspace", "ctrl-k", "ctrl-u",
 	"word-fwd", "word-back", "ctrl-w", "release", "ctrl-other", "set"}
 
 func genG(rt *rapid.T, ascii bool) []string {
